@@ -2,18 +2,22 @@ import PoryProofs.StmtGrammar
 import PoryProofs.Properties.C02P
 import PoryProofs.Properties.C10b
 /-
-P1 (statement grammar), stages 2 and 3: the parser model on printed script bodies.
+P1 (statement grammar), stages 2 – 4: the parser model on printed script bodies.
 
-`Spec n` is the specification of every function of the mutually recursive statement block
+`Spec n` is the specification of ALL 13 functions of the mutually recursive statement block
 (`parseStatement`, `parseBlockStatement`, `parseSwitchBlockStatement`, `parseConditionExpression` (with and
 without a condition), `parseElifs`, `parseIfStatement`, `parseWhileStatement`, `parseDoWhileStatement`,
-`parseSwitchCases`, `parseSwitchStatement`) at fuel `n`: run on the printed tokens of a well-formed piece of
-surface syntax (`PoryProofs/StmtGrammar.lean`) it returns exactly the result of the reference elaboration —
-the elaborated tree, the window stopped on the documented token, the two counters advanced, the stacks
-restored, nothing else changed — or, when the elaboration reports a violation, exactly that located error.
+`parseSwitchCases`, `parseSwitchStatement` (both operand forms), `parsePoryswitchStatement`,
+`parsePoryswitchStatementCases`, `parsePoryswitchStatements` (both modes)) at fuel `n`: run on the printed
+tokens of a well-formed piece of surface syntax (`PoryProofs/StmtGrammar.lean`) it returns exactly the result
+of the reference elaboration — the elaborated tree, its implicit data, the window stopped on the documented
+token, the two counters advanced, the stacks restored, nothing else changed — or, when the elaboration reports
+an error, exactly that located error.
 `spec : ∀ n, Spec n` is one induction on fuel (the `specAll` pattern of `ParserScopes.lean`), with
-`C02P.parse_bool_tree` (conditions), `C10b.parse_command` (commands) and the case-header / switch-header
-lemmas of `SwitchParse.lean` as black boxes.
+`C02P.parse_bool_tree` (conditions), `C11b.parse_autovar_leaf` (+ its rejections; auto-var conditions),
+`C10b.parse_command` / `C10c.parse_command_imp` (commands), `C14b.parse_moves_operator` (inside the latter),
+the case-header / switch-header lemmas of `SwitchParse.lean`, `AutoVarParse.epv_auto` and the poryswitch
+header lemmas of `TopParse.lean` as black boxes.
 
 Main theorems: `parse_block_elab` (both sides in one equation), `parse_block_print` (acceptance),
 `parse_block_reject` (rejection), `fuel_of_tokens` (`2 * tokens + 1` fuel suffices).
@@ -21,12 +25,15 @@ Main theorems: `parse_block_elab` (both sides in one equation), `parse_block_pri
 States are written `S s l B C i j` = `s` with window `l`, break stack `B`, continue stack `C`, next scope id
 `i`, next command id `j`.
 
-Not covered (Stage 4): auto-var leaves in conditions, `switch` on an auto-var command, `value(…)`
-comparison values, inline strings / `moves()` (implicit data), `poryswitch` statements.
+Not covered: auto-var leaves INSIDE `&&` / `||` / parenthesised conditions, `value(…)` and multi-token
+comparison values / operands, `format( … )` arguments, string / `moves` arguments in the command of an
+auto-var condition or switch operand, the bare / `name()` forms of such a command, a poryswitch case
+`key :` without statement.
 -/
 namespace Pory.StmtG
 open Pory Pory.Parser Pory.C02P Pory.C10b Pory.SwitchParse Pory.TopParse
 open Pory.C14b (swVal)
+open Pory.C10c
 open Pory.C11b (operandName badPosMsg autoFinish epv_auto Form printAuto autoLeafT leftSideMsg)
 
 def S (s : PState) (l : List Tok) (B C : List Nat) (i j : Nat) : PState :=
@@ -333,6 +340,102 @@ theorem stmt_cmd (name lp : Tok) (a0 : List Tok) (more : List (Tok × List Tok))
     cmd_S env sn s B C i j name lp a0 more rp (t :: tl) hlp hrp h0 hm n hf]
   rfl
 
+/-- `parse_command_imp` on `S`-states. -/
+theorem cmdI_S (name lp : Tok) (a0 : List AElem) (more : List (Tok × List AElem)) (rp : Tok)
+    (rest : List Tok) (hlp : lp.type = .LPAREN) (hrp : rp.type = .RPAREN) (h0 : argEOK a0 = true)
+    (hm : ∀ p ∈ more, p.1.type = .COMMA ∧ argEOK p.2 = true) (fuel : Nat)
+    (hf : needCmdE a0 more ≤ fuel) :
+    (parseCommandStatement env sn fuel).run (S s (printCmdE name lp a0 more rp ++ rest) B C i j) =
+      .ok (({ id := j, tok := name, name := name.lit,
+              args := (a0 :: more.map (·.2)).map (renderArgE (substC s.constants)) },
+            impArgs sn j name 0 (a0 :: more.map (·.2))),
+           S s (rp :: rest) B C i (j + 1)) :=
+  parse_command_imp env sn (S s [] B C i j) name lp a0 more rp rest hlp hrp h0 hm fuel hf
+
+/-- `name ( a0 , … )` with string / `moves` arguments is never read as a scoped label. -/
+theorem cmdI_not_label (a0 : List AElem) (more : List (Tok × List AElem)) (rp t : Tok) (tl : List Tok)
+    (d : Tok) (h0 : argEOK a0 = true) (hm : ∀ p ∈ more, p.1.type = .COMMA ∧ argEOK p.2 = true)
+    (ht : t.type ≠ .COLON) :
+    ¬ ((((printArgE a0 ++ (printMoreE more ++ rp :: t :: tl)).getD 0 d).type = .GLOBAL ∨
+        ((printArgE a0 ++ (printMoreE more ++ rp :: t :: tl)).getD 0 d).type = .LOCAL) ∧
+      ((printArgE a0 ++ (printMoreE more ++ rp :: t :: tl)).getD 1 d).type = .RPAREN ∧
+      ((printArgE a0 ++ (printMoreE more ++ rp :: t :: tl)).getD 2 d).type = .COLON) := by
+  obtain ⟨hne, htoks, hbal⟩ := (argEOK_iff a0).mp h0
+  cases a0 with
+  | nil => exact absurd rfl hne
+  | cons e a0' =>
+    simp only [List.all_cons, Bool.and_eq_true] at htoks
+    cases e with
+    | tok g =>
+      cases a0' with
+      | nil =>
+        cases more with
+        | nil =>
+          simp only [printArgE, AElem.toks, printMoreE, List.nil_append, List.cons_append, List.getD_cons_succ,
+            List.getD_cons_zero, List.append_nil]
+          intro h; exact ht h.2.2
+        | cons p m =>
+          have := (hm p (by simp)).1
+          simp only [printArgE, AElem.toks, printMoreE, List.nil_append, List.cons_append, List.getD_cons_succ,
+            List.getD_cons_zero, List.append_nil]
+          intro h; rw [this] at h; exact absurd h.2.1 (by decide)
+      | cons e2 a0'' =>
+        simp only [List.all_cons, Bool.and_eq_true] at htoks
+        cases e2 with
+        | tok x =>
+          simp only [printArgE, AElem.toks, List.cons_append, List.nil_append, List.getD_cons_succ,
+            List.getD_cons_zero]
+          intro h
+          have hg1 : g.type ≠ .LPAREN := by rcases h.1 with h | h <;> rw [h] <;> decide
+          have hg2 : g.type ≠ .RPAREN := by rcases h.1 with h | h <;> rw [h] <;> decide
+          simp [depthE, hg1, hg2, h.2.1] at hbal
+        | str x =>
+          have hx : x.type = .STRING := by simpa [AElem.ok] using htoks.2.1
+          simp only [printArgE, AElem.toks, List.cons_append, List.nil_append, List.getD_cons_succ,
+            List.getD_cons_zero]
+          intro h; rw [hx] at h; exact absurd h.2.1 (by decide)
+        | tstr ty x =>
+          have hx : ty.type = .STRINGTYPE := by
+            have := htoks.2.1; simp only [AElem.ok, Bool.and_eq_true, beq_iff_eq] at this; exact this.1
+          simp only [printArgE, AElem.toks, List.cons_append, List.nil_append, List.getD_cons_succ,
+            List.getD_cons_zero]
+          intro h; rw [hx] at h; exact absurd h.2.1 (by decide)
+        | moves mv lp' items rp' =>
+          have hx : mv.type = .MOVES := by
+            have := htoks.2.1; simp only [AElem.ok, Bool.and_eq_true, beq_iff_eq] at this; exact this.1.1.1.1
+          simp only [printArgE, AElem.toks, List.cons_append, List.nil_append, List.getD_cons_succ,
+            List.getD_cons_zero]
+          intro h; rw [hx] at h; exact absurd h.2.1 (by decide)
+    | str x =>
+      have hx : x.type = .STRING := by simpa [AElem.ok] using htoks.1
+      simp only [printArgE, AElem.toks, List.cons_append, List.nil_append, List.getD_cons_zero]
+      intro h; rw [hx] at h; rcases h.1 with h | h <;> exact absurd h (by decide)
+    | tstr ty x =>
+      have hx : ty.type = .STRINGTYPE := by
+        have := htoks.1; simp only [AElem.ok, Bool.and_eq_true, beq_iff_eq] at this; exact this.1
+      simp only [printArgE, AElem.toks, List.cons_append, List.nil_append, List.getD_cons_zero]
+      intro h; rw [hx] at h; rcases h.1 with h | h <;> exact absurd h (by decide)
+    | moves mv lp' items rp' =>
+      have hx : mv.type = .MOVES := by
+        have := htoks.1; simp only [AElem.ok, Bool.and_eq_true, beq_iff_eq] at this; exact this.1.1.1.1
+      simp only [printArgE, AElem.toks, List.cons_append, List.getD_cons_zero]
+      intro h; rw [hx] at h; rcases h.1 with h | h <;> exact absurd h (by decide)
+
+theorem stmt_cmdI (name lp : Tok) (a0 : List AElem) (more : List (Tok × List AElem)) (rp t : Tok)
+    (tl : List Tok) (hn : name.type = .IDENT) (hlp : lp.type = .LPAREN) (hrp : rp.type = .RPAREN)
+    (h0 : argEOK a0 = true) (hm : ∀ p ∈ more, p.1.type = .COMMA ∧ argEOK p.2 = true) (ht : t.type ≠ .COLON)
+    (hf : needCmdE a0 more ≤ n) :
+    (parseStatement env sn (n + 1)).run (S s (printCmdE name lp a0 more rp ++ t :: tl) B C i j) =
+      .ok (([cmdNode j name ((a0 :: more.map (·.2)).map (renderArgE (substC s.constants)))],
+          impArgs sn j name 0 (a0 :: more.map (·.2))),
+        S s (rp :: t :: tl) B C i (j + 1)) := by
+  rw [stmt_cmd_gen env sn n _ (by simp [printCmdE, S_toks, hn]) (label_none _
+      (by simp [printCmdE, S_toks, hlp]) (by
+        have := cmdI_not_label a0 more rp t tl s.eof h0 hm ht
+        simpa [printCmdE, S_toks, S_eof, hlp] using this)),
+    cmdI_S env sn s B C i j name lp a0 more rp (t :: tl) hlp hrp h0 hm n hf]
+  rfl
+
 theorem stmt_cmdE (name lp rp : Tok) (rest : List Tok) (hn : name.type = .IDENT)
     (hlp : lp.type = .LPAREN) (hrp : rp.type = .RPAREN) :
     (parseStatement env sn (n + 2)).run (S s (name :: lp :: rp :: rest) B C i j) =
@@ -351,9 +454,6 @@ theorem stmt_cmd0 (name t : Tok) (tl : List Tok) (hn : name.type = .IDENT)
       (by simp [S_toks, h1]) (by simp [S_toks, h2])),
     parse_command_bare env sn n _ (by simp [S_toks, h2])]
   rfl
-
-theorem add_nil (imp : ImpData) : imp.add {} = imp := by
-  cases imp; simp [ImpData.add]
 
 /-- One iteration of the block loop. -/
 theorem block_cons (tok : Tok) (acc : List Stmt) (imp : ImpData) (st0 : PState)
@@ -475,35 +575,35 @@ theorem head_isPory (x : SStmt) (h : swfS x = true) (t : Tok) (tl : List Tok) (h
 
 /-- Result of a statement-level function from the reference elaboration. -/
 def outS (s : PState) (l : List Tok) (B C : List Nat) :
-    Except PFail (List Stmt × Nat × Nat) → Except PFail ((List Stmt × ImpData) × PState)
-  | .ok (a, i, j) => .ok ((a, {}), S s l B C i j)
+    Except PFail (List Stmt × ImpData × Nat × Nat) → Except PFail ((List Stmt × ImpData) × PState)
+  | .ok (a, m, i, j) => .ok ((a, m), S s l B C i j)
   | .error e => .error e
 
 /-- Result of a block loop started with the accumulators `acc`, `imp`. -/
 def outB (s : PState) (l : List Tok) (B C : List Nat) (acc : List Stmt) (imp : ImpData) :
-    Except PFail (List Stmt × Nat × Nat) → Except PFail ((List Stmt × ImpData) × PState)
-  | .ok (a, i, j) => .ok ((acc ++ a, imp), S s l B C i j)
+    Except PFail (List Stmt × ImpData × Nat × Nat) → Except PFail ((List Stmt × ImpData) × PState)
+  | .ok (a, m, i, j) => .ok ((acc ++ a, imp.add m), S s l B C i j)
   | .error e => .error e
 
 /-- Result of `parseConditionExpression`. -/
 def outC (s : PState) (l : List Tok) (B C : List Nat) (cond : Option BoolExpr) :
-    Except PFail (List Stmt × Nat × Nat) →
+    Except PFail (List Stmt × ImpData × Nat × Nat) →
       Except PFail ((Option BoolExpr × List Stmt × ImpData) × PState)
-  | .ok (a, i, j) => .ok ((cond, a, {}), S s l B C i j)
+  | .ok (a, m, i, j) => .ok ((cond, a, m), S s l B C i j)
   | .error e => .error e
 
 /-- Result of `parseElifs`. -/
-def outE (s : PState) (l : List Tok) (B C : List Nat) (acc : List (BoolExpr × List Stmt)) :
-    Except PFail (List (BoolExpr × List Stmt) × Nat × Nat) →
+def outE (s : PState) (l : List Tok) (B C : List Nat) (acc : List (BoolExpr × List Stmt)) (imp : ImpData) :
+    Except PFail (List (BoolExpr × List Stmt) × ImpData × Nat × Nat) →
       Except PFail ((List (BoolExpr × List Stmt) × ImpData) × PState)
-  | .ok (a, i, j) => .ok ((acc ++ a, {}), S s l B C i j)
+  | .ok (a, m, i, j) => .ok ((acc ++ a, imp.add m), S s l B C i j)
   | .error e => .error e
 
 /-- Result of `parseSwitchCases`. -/
-def outK (s : PState) (l : List Tok) (B C : List Nat) (acc : List SwitchCase) (hd : Bool) :
-    Except PFail (List SwitchCase × Nat × Nat) →
+def outK (s : PState) (l : List Tok) (B C : List Nat) (acc : List SwitchCase) (hd : Bool) (imp : ImpData) :
+    Except PFail (List SwitchCase × ImpData × Nat × Nat) →
       Except PFail ((List SwitchCase × Bool × ImpData) × PState)
-  | .ok (a, i, j) => .ok ((acc ++ a, hd, {}), S s l B C i j)
+  | .ok (a, m, i, j) => .ok ((acc ++ a, hd, imp.add m), S s l B C i j)
   | .error e => .error e
 
 /-- Result of `parsePoryswitchStatementCases`. -/
@@ -522,17 +622,17 @@ structure Spec (n : Nat) : Prop where
   stmt : ∀ (env : Env) (sn : String) (s : PState) (B C : List Nat) (i j : Nat) (x : SStmt) (rest : List Tok),
     swfS x = true → Fol rest → needS x ≤ n →
     (parseStatement env sn n).run (S s (printS x ++ rest) B C i j) =
-      outS s (lastS x :: rest) B C (elabS env (substC s.constants) B C (isRB rest) x i j)
+      outS s (lastS x :: rest) B C (elabS env sn (substC s.constants) B C (isRB rest) x i j)
   block : ∀ (env : Env) (sn : String) (tok : Tok) (s : PState) (B C : List Nat) (i j : Nat) (b : List SStmt)
     (acc : List Stmt) (imp : ImpData) (rb : Tok) (rest : List Tok),
     swfL b = true → rb.type = .RBRACE → needL b ≤ n →
     (parseBlockStatement env sn tok n acc imp).run (S s (printL b ++ rb :: rest) B C i j) =
-      outB s (rb :: rest) B C acc imp (elabL env (substC s.constants) B C true b i j)
+      outB s (rb :: rest) B C acc imp (elabL env sn (substC s.constants) B C true b i j)
   swblock : ∀ (env : Env) (sn : String) (tok : Tok) (s : PState) (B C : List Nat) (i j : Nat)
     (b : List SStmt) (acc : List Stmt) (imp : ImpData) (c : Tok) (rest : List Tok),
     swfL b = true → closeT c = true → needL b ≤ n →
     (parseSwitchBlockStatement env sn tok n acc imp).run (S s (printL b ++ c :: rest) B C i j) =
-      outB s (c :: rest) B C acc imp (elabL env (substC s.constants) B C (c.type == .RBRACE) b i j)
+      outB s (c :: rest) B C acc imp (elabL env sn (substC s.constants) B C (c.type == .RBRACE) b i j)
   cond1 : ∀ (env : Env) (sn : String) (req : Bool) (s : PState) (B C : List Nat) (i j : Nat) (pre lp : Tok)
     (c : SCond) (rp lb : Tok) (body : List SStmt) (rb : Tok) (rest : List Tok),
     lp.type = .LPAREN → rp.type = .RPAREN → lb.type = .LBRACE → rb.type = .RBRACE → swfL body = true →
@@ -542,46 +642,47 @@ structure Spec (n : Nat) : Prop where
       match elabCond env (substC s.constants) c j with
       | .error e => .error e
       | .ok (t, j0) =>
-        outC s (rb :: rest) B C (some t) (elabL env (substC s.constants) B C true body i j0)
+        outC s (rb :: rest) B C (some t) (elabL env sn (substC s.constants) B C true body i j0)
   cond0 : ∀ (env : Env) (sn : String) (s : PState) (B C : List Nat) (i j : Nat) (pre lb : Tok)
     (body : List SStmt) (rb : Tok) (rest : List Tok),
     lb.type = .LBRACE → rb.type = .RBRACE → swfL body = true → 1 + needL body ≤ n →
     (parseConditionExpression env sn false n).run (S s (pre :: lb :: (printL body ++ rb :: rest)) B C i j) =
-      outC s (rb :: rest) B C none (elabL env (substC s.constants) B C true body i j)
+      outC s (rb :: rest) B C none (elabL env sn (substC s.constants) B C true body i j)
   elifs : ∀ (env : Env) (sn : String) (s : PState) (B C : List Nat) (i j : Nat)
-    (acc : List (BoolExpr × List Stmt)) (es : List SElif) (pre : Tok) (rest : List Tok),
+    (acc : List (BoolExpr × List Stmt)) (imp : ImpData) (es : List SElif) (pre : Tok) (rest : List Tok),
     swfElifs es = true → (∃ t tl, rest = t :: tl ∧ t.type ≠ .ELSEIF) → needElifs es ≤ n →
-    (parseElifs env sn n acc {}).run (S s (pre :: (printElifs es ++ rest)) B C i j) =
-      outE s (lastElifs es pre :: rest) B C acc (elabElifs env (substC s.constants) B C es i j)
+    (parseElifs env sn n acc imp).run (S s (pre :: (printElifs es ++ rest)) B C i j) =
+      outE s (lastElifs es pre :: rest) B C acc imp (elabElifs env sn (substC s.constants) B C es i j)
   ifs : ∀ (env : Env) (sn : String) (s : PState) (B C : List Nat) (i j : Nat) (ifTok lp : Tok) (c : SCond)
     (rp lb : Tok) (body : List SStmt) (rb : Tok) (elifs : List SElif) (els : SElse) (rest : List Tok),
     swfS (.ite ifTok lp c rp lb body rb elifs els) = true → Fol rest →
     needS (.ite ifTok lp c rp lb body rb elifs els) ≤ n + 1 →
     (parseIfStatement env sn n).run (S s (printS (.ite ifTok lp c rp lb body rb elifs els) ++ rest) B C i j) =
       outS s (lastS (.ite ifTok lp c rp lb body rb elifs els) :: rest) B C
-        (elabS env (substC s.constants) B C (isRB rest) (.ite ifTok lp c rp lb body rb elifs els) i j)
+        (elabS env sn (substC s.constants) B C (isRB rest) (.ite ifTok lp c rp lb body rb elifs els) i j)
   whiles : ∀ (env : Env) (sn : String) (s : PState) (B C : List Nat) (i j : Nat) (w lp : Tok) (c : SCond)
     (rp lb : Tok) (body : List SStmt) (rb : Tok) (rest : List Tok),
     swfS (.while_ w lp c rp lb body rb) = true → needS (.while_ w lp c rp lb body rb) ≤ n + 1 →
     (parseWhileStatement env sn n).run (S s (printS (.while_ w lp c rp lb body rb) ++ rest) B C i j) =
-      outS s (rb :: rest) B C (elabS env (substC s.constants) B C (isRB rest) (.while_ w lp c rp lb body rb) i j)
+      outS s (rb :: rest) B C (elabS env sn (substC s.constants) B C (isRB rest) (.while_ w lp c rp lb body rb) i j)
   whileInfs : ∀ (env : Env) (sn : String) (s : PState) (B C : List Nat) (i j : Nat) (w lb : Tok)
     (body : List SStmt) (rb : Tok) (rest : List Tok),
     swfS (.whileInf w lb body rb) = true → needS (.whileInf w lb body rb) ≤ n + 1 →
     (parseWhileStatement env sn n).run (S s (printS (.whileInf w lb body rb) ++ rest) B C i j) =
-      outS s (rb :: rest) B C (elabS env (substC s.constants) B C (isRB rest) (.whileInf w lb body rb) i j)
+      outS s (rb :: rest) B C (elabS env sn (substC s.constants) B C (isRB rest) (.whileInf w lb body rb) i j)
   doWhiles : ∀ (env : Env) (sn : String) (s : PState) (B C : List Nat) (i j : Nat) (d lb : Tok)
     (body : List SStmt) (rb w lp : Tok) (c : SCond) (rp : Tok) (rest : List Tok),
     swfS (.doWhile d lb body rb w lp c rp) = true → needS (.doWhile d lb body rb w lp c rp) ≤ n + 1 →
     (parseDoWhileStatement env sn n).run (S s (printS (.doWhile d lb body rb w lp c rp) ++ rest) B C i j) =
       outS s (rp :: rest) B C
-        (elabS env (substC s.constants) B C (isRB rest) (.doWhile d lb body rb w lp c rp) i j)
+        (elabS env sn (substC s.constants) B C (isRB rest) (.doWhile d lb body rb w lp c rp) i j)
   cases : ∀ (env : Env) (sn : String) (brace : Tok) (s : PState) (B C : List Nat) (i j : Nat)
-    (acc : List SwitchCase) (seen : List String) (hd : Bool) (cs : List SCase) (rb : Tok) (rest : List Tok),
+    (acc : List SwitchCase) (seen : List String) (hd : Bool) (imp : ImpData) (cs : List SCase) (rb : Tok)
+    (rest : List Tok),
     swfCases cs = true → rb.type = .RBRACE → needCases cs ≤ n →
-    (parseSwitchCases env sn brace n acc seen hd {}).run (S s (printCases cs ++ rb :: rest) B C i j) =
-      outK s (rb :: rest) B C acc (hd || cs.any SCase.isDflt)
-        (elabCases env (substC s.constants) B C cs seen hd i j)
+    (parseSwitchCases env sn brace n acc seen hd imp).run (S s (printCases cs ++ rb :: rest) B C i j) =
+      outK s (rb :: rest) B C acc (hd || cs.any SCase.isDflt) imp
+        (elabCases env sn (substC s.constants) B C cs seen hd i j)
   switch : ∀ (env : Env) (sn : String) (s : PState) (B C : List Nat) (i j : Nat) (sw lp v lp2 : Tok)
     (ops : List Tok) (rp2 rp lb : Tok) (cs : List SCase) (rb : Tok) (rest : List Tok),
     swfS (.switch_ sw lp v lp2 ops rp2 rp lb cs rb) = true →
@@ -589,7 +690,7 @@ structure Spec (n : Nat) : Prop where
     (parseSwitchStatement env sn n).run
         (S s (printS (.switch_ sw lp v lp2 ops rp2 rp lb cs rb) ++ rest) B C i j) =
       outS s (rb :: rest) B C
-        (elabS env (substC s.constants) B C (isRB rest) (.switch_ sw lp v lp2 ops rp2 rp lb cs rb) i j)
+        (elabS env sn (substC s.constants) B C (isRB rest) (.switch_ sw lp v lp2 ops rp2 rp lb cs rb) i j)
   switchA : ∀ (env : Env) (sn : String) (s : PState) (B C : List Nat) (i j : Nat) (sw lp name lp2 : Tok)
     (a0 : List Tok) (more : List (Tok × List Tok)) (rp2 rp lb : Tok) (cs : List SCase) (rb : Tok)
     (rest : List Tok),
@@ -598,27 +699,27 @@ structure Spec (n : Nat) : Prop where
     (parseSwitchStatement env sn n).run
         (S s (printS (.switchA sw lp name lp2 a0 more rp2 rp lb cs rb) ++ rest) B C i j) =
       outS s (rb :: rest) B C
-        (elabS env (substC s.constants) B C (isRB rest) (.switchA sw lp name lp2 a0 more rp2 rp lb cs rb) i j)
+        (elabS env sn (substC s.constants) B C (isRB rest) (.switchA sw lp name lp2 a0 more rp2 rp lb cs rb) i j)
   pory : ∀ (env : Env) (sn : String) (s : PState) (B C : List Nat) (i j : Nat) (ps lp x rp lb : Tok)
     (cs : List SPCase) (rb : Tok) (rest : List Tok),
     swfS (.pory ps lp x rp lb cs rb) = true → needS (.pory ps lp x rp lb cs rb) ≤ n + 1 →
     (parsePoryswitchStatement env sn n).run (S s (printS (.pory ps lp x rp lb cs rb) ++ rest) B C i j) =
       outS s (rb :: rest) B C
-        (elabS env (substC s.constants) B C (isRB rest) (.pory ps lp x rp lb cs rb) i j)
+        (elabS env sn (substC s.constants) B C (isRB rest) (.pory ps lp x rp lb cs rb) i j)
   pcases : ∀ (env : Env) (sn : String) (startTok : Tok) (s : PState) (B C : List Nat) (i j : Nat)
     (acc : List (String × List Stmt × ImpData)) (cs : List SPCase) (rb : Tok) (rest : List Tok),
     swfPCases cs = true → rb.type = .RBRACE → needPCases cs ≤ n →
     (parsePoryswitchStatementCases env sn startTok n acc).run (S s (printPCases cs ++ rb :: rest) B C i j) =
-      outP s (rb :: rest) B C (elabPCases env (substC s.constants) B C cs acc i j)
+      outP s (rb :: rest) B C (elabPCases env sn (substC s.constants) B C cs acc i j)
   pstmts : ∀ (env : Env) (sn : String) (s : PState) (B C : List Nat) (i j : Nat) (b : List SStmt)
     (acc : List Stmt) (imp : ImpData) (rb : Tok) (rest : List Tok),
     swfL b = true → rb.type = .RBRACE → needL b ≤ n →
     (parsePoryswitchStatements env sn true n acc imp).run (S s (printL b ++ rb :: rest) B C i j) =
-      outB s (rb :: rest) B C acc imp (elabL env (substC s.constants) B C true b i j)
+      outB s (rb :: rest) B C acc imp (elabL env sn (substC s.constants) B C true b i j)
   pstmt1 : ∀ (env : Env) (sn : String) (s : PState) (B C : List Nat) (i j : Nat) (x : SStmt)
     (rest : List Tok), swfS x = true → Fol rest → needS x + 1 ≤ n →
     (parsePoryswitchStatements env sn false n [] {}).run (S s (printS x ++ rest) B C i j) =
-      outB s rest B C [] {} (elabS env (substC s.constants) B C (isRB rest) x i j)
+      outB s rest B C [] {} (elabS env sn (substC s.constants) B C (isRB rest) x i j)
 
 section
 variable {n : Nat} (ih : Spec n) (env : Env) (sn : String) (s : PState) (B C : List Nat) (i j : Nat)
@@ -627,11 +728,11 @@ include ih
 theorem block_step (tok : Tok) (b : List SStmt) (acc : List Stmt) (imp : ImpData) (rb : Tok)
     (rest : List Tok) (hb : swfL b = true) (hrb : rb.type = .RBRACE) (hf : needL b ≤ n + 1) :
     (parseBlockStatement env sn tok (n + 1) acc imp).run (S s (printL b ++ rb :: rest) B C i j) =
-      outB s (rb :: rest) B C acc imp (elabL env (substC s.constants) B C true b i j) := by
+      outB s (rb :: rest) B C acc imp (elabL env sn (substC s.constants) B C true b i j) := by
   cases b with
   | nil =>
     rw [block_nil env sn n tok acc imp _ (by simp [printL, S_toks, hrb])]
-    simp [printL, elabL, outB]
+    simp [printL, elabL, outB, add_nil]
   | cons x r =>
     simp only [swfL, Bool.and_eq_true] at hb
     simp only [needL] at hf
@@ -644,25 +745,25 @@ theorem block_step (tok : Tok) (b : List SStmt) (acc : List Stmt) (imp : ImpData
       simp [printL]
     rw [hw, block_cons env sn n tok acc imp _ (by simp [S_toks, hp, hne.1]) (by simp [S_toks, hp, hne.2.1]), h1]
     simp only [elabL, bt hrb]
-    cases elabS env (substC s.constants) B C (r.isEmpty && true) x i j with
+    cases elabS env sn (substC s.constants) B C (r.isEmpty && true) x i j with
     | error e => rfl
     | ok v =>
-      obtain ⟨a, i1, j1⟩ := v
-      simp only [outS, S_toks, st_S, List.tail_cons, add_nil]
-      rw [ih.block env sn tok s B C i1 j1 r (acc ++ a) imp rb rest hb.2 hrb (by omega)]
-      cases elabL env (substC s.constants) B C true r i1 j1 with
+      obtain ⟨a, m1, i1, j1⟩ := v
+      simp only [outS, S_toks, st_S, List.tail_cons]
+      rw [ih.block env sn tok s B C i1 j1 r (acc ++ a) (imp.add m1) rb rest hb.2 hrb (by omega)]
+      cases elabL env sn (substC s.constants) B C true r i1 j1 with
       | error e => rfl
-      | ok w => obtain ⟨b', i2, j2⟩ := w; simp [outB]
+      | ok w => obtain ⟨b', m2, i2, j2⟩ := w; simp [outB, add_assoc]
 
 theorem swblock_step (tok : Tok) (b : List SStmt) (acc : List Stmt) (imp : ImpData) (c : Tok)
     (rest : List Tok) (hb : swfL b = true) (hc : closeT c = true) (hf : needL b ≤ n + 1) :
     (parseSwitchBlockStatement env sn tok (n + 1) acc imp).run (S s (printL b ++ c :: rest) B C i j) =
-      outB s (c :: rest) B C acc imp (elabL env (substC s.constants) B C (c.type == .RBRACE) b i j) := by
+      outB s (c :: rest) B C acc imp (elabL env sn (substC s.constants) B C (c.type == .RBRACE) b i j) := by
   cases b with
   | nil =>
     rw [swblock_nil env sn n tok acc imp _ (by
       simpa [printL, S_toks, closeT, or_assoc] using hc)]
-    simp [printL, elabL, outB]
+    simp [printL, elabL, outB, add_nil]
   | cons x r =>
     simp only [swfL, Bool.and_eq_true] at hb
     simp only [needL] at hf
@@ -676,15 +777,15 @@ theorem swblock_step (tok : Tok) (b : List SStmt) (acc : List Stmt) (imp : ImpDa
     rw [hw, swblock_cons env sn n tok acc imp _ (by simp [S_toks, hp, hne.1]) (by simp [S_toks, hp, hne.2.1])
       (by simp [S_toks, hp, hne.2.2.1]) (by simp [S_toks, hp, hne.2.2.2.1]), h1]
     simp only [elabL]
-    cases elabS env (substC s.constants) B C (r.isEmpty && c.type == .RBRACE) x i j with
+    cases elabS env sn (substC s.constants) B C (r.isEmpty && c.type == .RBRACE) x i j with
     | error e => rfl
     | ok v =>
-      obtain ⟨a, i1, j1⟩ := v
-      simp only [outS, S_toks, st_S, List.tail_cons, add_nil]
-      rw [ih.swblock env sn tok s B C i1 j1 r (acc ++ a) imp c rest hb.2 hc (by omega)]
-      cases elabL env (substC s.constants) B C (c.type == .RBRACE) r i1 j1 with
+      obtain ⟨a, m1, i1, j1⟩ := v
+      simp only [outS, S_toks, st_S, List.tail_cons]
+      rw [ih.swblock env sn tok s B C i1 j1 r (acc ++ a) (imp.add m1) c rest hb.2 hc (by omega)]
+      cases elabL env sn (substC s.constants) B C (c.type == .RBRACE) r i1 j1 with
       | error e => rfl
-      | ok w => obtain ⟨b', i2, j2⟩ := w; simp [outB]
+      | ok w => obtain ⟨b', m2, i2, j2⟩ := w; simp [outB, add_assoc]
 
 end
 
@@ -853,7 +954,7 @@ include ih
 theorem stmt_step (x : SStmt) (rest : List Tok) (hx : swfS x = true) (hfol : Fol rest)
     (hf : needS x ≤ n + 1) :
     (parseStatement env sn (n + 1)).run (S s (printS x ++ rest) B C i j) =
-      outS s (lastS x :: rest) B C (elabS env (substC s.constants) B C (isRB rest) x i j) := by
+      outS s (lastS x :: rest) B C (elabS env sn (substC s.constants) B C (isRB rest) x i j) := by
   obtain ⟨t, tl, rfl, ht⟩ := hfol
   have hne := fol_ne ht
   cases x with
@@ -863,6 +964,12 @@ theorem stmt_step (x : SStmt) (rest : List Tok) (hx : swfS x = true) (hfol : Fol
     obtain ⟨⟨⟨⟨h1, h2⟩, h3⟩, h4⟩, h5⟩ := hx
     simp only [printS, lastS, elabS, outS]
     exact stmt_cmd env sn s B C i j n name lp a0 more rp t tl h1 h2 h3 h4 h5 hne.2.1 (by omega)
+  | cmdI name lp a0 more rp =>
+    simp only [swfS, Bool.and_eq_true, beq_iff_eq, List.all_eq_true] at hx
+    simp only [needS] at hf
+    obtain ⟨⟨⟨⟨h1, h2⟩, h3⟩, h4⟩, h5⟩ := hx
+    simp only [printS, lastS, elabS, outS]
+    exact stmt_cmdI env sn s B C i j n name lp a0 more rp t tl h1 h2 h3 h4 h5 hne.2.1 (by omega)
   | cmdE name lp rp =>
     simp only [swfS, Bool.and_eq_true, beq_iff_eq] at hx
     simp only [needS] at hf
@@ -941,7 +1048,7 @@ theorem cond1_step (req : Bool) (pre lp : Tok) (c : SCond) (rp lb : Tok) (body :
       match elabCond env (substC s.constants) c j with
       | .error e => .error e
       | .ok (t, j0) =>
-        outC s (rb :: rest) B C (some t) (elabL env (substC s.constants) B C true body i j0) := by
+        outC s (rb :: rest) B C (some t) (elabL env sn (substC s.constants) B C true body i j0) := by
   rw [parseConditionExpression]
   have h1 : (lp.type == TT.LBRACE) = false := by rw [hlp]; decide
   psimp [h1, bt hlp, cond_S env sn s B C i j c lp rp _ hc hrp n (by omega)]
@@ -953,35 +1060,35 @@ theorem cond1_step (req : Bool) (pre lp : Tok) (c : SCond) (rp lb : Tok) (body :
     psimp [run_expectPeekErr_ok .LBRACE (S s (rp :: lb :: (printL body ++ rb :: rest)) B C i j0)
         (by simp [S_toks, hlb]),
       ih.block env sn lb s B C i j0 body [] {} rb rest hb hrb (by omega)]
-    cases elabL env (substC s.constants) B C true body i j0 with
+    cases elabL env sn (substC s.constants) B C true body i j0 with
     | error e => rfl
-    | ok v => obtain ⟨a, i1, j1⟩ := v; rfl
+    | ok v => obtain ⟨a, m1, i1, j1⟩ := v; rfl
 
 theorem cond0_step (pre lb : Tok) (body : List SStmt) (rb : Tok) (rest : List Tok)
     (hlb : lb.type = .LBRACE) (hrb : rb.type = .RBRACE) (hb : swfL body = true)
     (hf : 1 + needL body ≤ n + 1) :
     (parseConditionExpression env sn false (n + 1)).run
         (S s (pre :: lb :: (printL body ++ rb :: rest)) B C i j) =
-      outC s (rb :: rest) B C none (elabL env (substC s.constants) B C true body i j) := by
+      outC s (rb :: rest) B C none (elabL env sn (substC s.constants) B C true body i j) := by
   rw [parseConditionExpression]
   psimp [bt hlb,
     run_expectPeekErr_ok .LBRACE (S s (pre :: lb :: (printL body ++ rb :: rest)) B C i j) (by simp [S_toks, hlb]),
     ih.block env sn lb s B C i j body [] {} rb rest hb hrb (by omega)]
-  cases elabL env (substC s.constants) B C true body i j with
+  cases elabL env sn (substC s.constants) B C true body i j with
   | error e => rfl
-  | ok v => obtain ⟨a, i1, j1⟩ := v; rfl
+  | ok v => obtain ⟨a, m1, i1, j1⟩ := v; rfl
 
-theorem elifs_step (acc : List (BoolExpr × List Stmt)) (es : List SElif) (pre : Tok) (rest : List Tok)
-    (hes : swfElifs es = true) (hrest : ∃ t tl, rest = t :: tl ∧ t.type ≠ .ELSEIF)
+theorem elifs_step (acc : List (BoolExpr × List Stmt)) (imp : ImpData) (es : List SElif) (pre : Tok)
+    (rest : List Tok) (hes : swfElifs es = true) (hrest : ∃ t tl, rest = t :: tl ∧ t.type ≠ .ELSEIF)
     (hf : needElifs es ≤ n + 1) :
-    (parseElifs env sn (n + 1) acc {}).run (S s (pre :: (printElifs es ++ rest)) B C i j) =
-      outE s (lastElifs es pre :: rest) B C acc (elabElifs env (substC s.constants) B C es i j) := by
+    (parseElifs env sn (n + 1) acc imp).run (S s (pre :: (printElifs es ++ rest)) B C i j) =
+      outE s (lastElifs es pre :: rest) B C acc imp (elabElifs env sn (substC s.constants) B C es i j) := by
   cases es with
   | nil =>
     obtain ⟨t, tl, rfl, ht⟩ := hrest
     rw [parseElifs]
     psimp [printElifs, bnf, bnt ht]
-    simp [lastElifs, elabElifs, outE]
+    simp [lastElifs, elabElifs, outE, add_nil]
   | cons e r =>
     obtain ⟨eTok, lp, c, rp, lb, body, rb⟩ := e
     simp only [swfElifs, swfElif, Bool.and_eq_true, beq_iff_eq] at hes
@@ -997,15 +1104,15 @@ theorem elifs_step (acc : List (BoolExpr × List Stmt)) (es : List SElif) (pre :
     | ok u =>
       obtain ⟨t, j0⟩ := u
       simp only
-      cases elabL env (substC s.constants) B C true body i j0 with
+      cases elabL env sn (substC s.constants) B C true body i j0 with
       | error e => rfl
       | ok v =>
-        obtain ⟨a, i1, j1⟩ := v
+        obtain ⟨a, m1, i1, j1⟩ := v
         simp only [outC, ex_bind_ok]
-        psimp [ih.elifs env sn s B C i1 j1 (acc ++ [(t, a)]) r rb rest h7 hrest (by omega)]
-        cases elabElifs env (substC s.constants) B C r i1 j1 with
+        psimp [ih.elifs env sn s B C i1 j1 (acc ++ [(t, a)]) (imp.add m1) r rb rest h7 hrest (by omega)]
+        cases elabElifs env sn (substC s.constants) B C r i1 j1 with
         | error e => rfl
-        | ok w => obtain ⟨es', i2, j2⟩ := w; simp [outE]
+        | ok w => obtain ⟨es', m2, i2, j2⟩ := w; simp [outE, add_assoc]
 
 theorem if_step (ifTok lp : Tok) (c : SCond) (rp lb : Tok) (body : List SStmt) (rb : Tok)
     (elifs : List SElif) (els : SElse) (rest : List Tok)
@@ -1014,7 +1121,7 @@ theorem if_step (ifTok lp : Tok) (c : SCond) (rp lb : Tok) (body : List SStmt) (
     (parseIfStatement env sn (n + 1)).run
         (S s (printS (.ite ifTok lp c rp lb body rb elifs els) ++ rest) B C i j) =
       outS s (lastS (.ite ifTok lp c rp lb body rb elifs els) :: rest) B C
-        (elabS env (substC s.constants) B C (isRB rest) (.ite ifTok lp c rp lb body rb elifs els) i j) := by
+        (elabS env sn (substC s.constants) B C (isRB rest) (.ite ifTok lp c rp lb body rb elifs els) i j) := by
   obtain ⟨t, tl, rfl, ht⟩ := hfol
   have hne := fol_ne ht
   simp only [swfS, Bool.and_eq_true, beq_iff_eq] at hx
@@ -1029,10 +1136,10 @@ theorem if_step (ifTok lp : Tok) (c : SCond) (rp lb : Tok) (body : List SStmt) (
   | ok u =>
   obtain ⟨ct, j0⟩ := u
   simp only
-  cases elabL env (substC s.constants) B C true body i j0 with
+  cases elabL env sn (substC s.constants) B C true body i j0 with
   | error e => rfl
   | ok v =>
-    obtain ⟨a, i1, j1⟩ := v
+    obtain ⟨a, m1, i1, j1⟩ := v
     simp only [outC, ex_bind_ok]
     have hel : ∃ t' tl', printElse els ++ t :: tl = t' :: tl' ∧ t'.type ≠ .ELSEIF := by
       cases els with
@@ -1040,16 +1147,16 @@ theorem if_step (ifTok lp : Tok) (c : SCond) (rp lb : Tok) (body : List SStmt) (
       | some e lb2 body2 rb2 =>
         simp only [swfElse, Bool.and_eq_true, beq_iff_eq] at h8
         exact ⟨e, lb2 :: (printL body2 ++ rb2 :: t :: tl), by simp [printElse], by rw [h8.1.1.1]; decide⟩
-    psimp [ih.elifs env sn s B C i1 j1 [] elifs rb (printElse els ++ t :: tl) h7 hel (by omega)]
-    cases elabElifs env (substC s.constants) B C elifs i1 j1 with
+    psimp [ih.elifs env sn s B C i1 j1 [] m1 elifs rb (printElse els ++ t :: tl) h7 hel (by omega)]
+    cases elabElifs env sn (substC s.constants) B C elifs i1 j1 with
     | error e => rfl
     | ok w =>
-      obtain ⟨es, i2, j2⟩ := w
+      obtain ⟨es, m2, i2, j2⟩ := w
       simp only [outE, ex_bind_ok, List.nil_append]
       cases els with
       | none =>
         psimp [printElse, bf hne.2.2.2.2]
-        simp [elabElse, lastElse, outS]
+        simp [elabElse, lastElse, outS, add_nil]
       | some e lb2 body2 rb2 =>
         simp only [swfElse, Bool.and_eq_true, beq_iff_eq] at h8
         obtain ⟨⟨⟨g1, g2⟩, g3⟩, g4⟩ := h8
@@ -1057,15 +1164,15 @@ theorem if_step (ifTok lp : Tok) (c : SCond) (rp lb : Tok) (body : List SStmt) (
         simp only [printElse, List.cons_append, List.append_assoc, List.nil_append]
         psimp [bt g1, bt g2, ih.block env sn lb2 s B C i2 j2 body2 [] {} rb2 (t :: tl) g4 g3 (by omega)]
         simp only [elabElse, lastElse]
-        cases elabL env (substC s.constants) B C true body2 i2 j2 with
+        cases elabL env sn (substC s.constants) B C true body2 i2 j2 with
         | error e => rfl
-        | ok u => obtain ⟨b2, i3, j3⟩ := u; rfl
+        | ok u => obtain ⟨b2, m3, i3, j3⟩ := u; simp [outB, outS, add_assoc, nil_add]
 
 theorem while_step (w lp : Tok) (c : SCond) (rp lb : Tok) (body : List SStmt) (rb : Tok) (rest : List Tok)
     (hx : swfS (.while_ w lp c rp lb body rb) = true) (hf : needS (.while_ w lp c rp lb body rb) ≤ n + 2) :
     (parseWhileStatement env sn (n + 1)).run (S s (printS (.while_ w lp c rp lb body rb) ++ rest) B C i j) =
       outS s (rb :: rest) B C
-        (elabS env (substC s.constants) B C (isRB rest) (.while_ w lp c rp lb body rb) i j) := by
+        (elabS env sn (substC s.constants) B C (isRB rest) (.while_ w lp c rp lb body rb) i j) := by
   simp only [swfS, Bool.and_eq_true, beq_iff_eq] at hx
   obtain ⟨⟨⟨⟨⟨⟨h1, h2⟩, h3⟩, h4⟩, h5⟩, h6⟩, h7⟩ := hx
   simp only [needS] at hf
@@ -1078,10 +1185,10 @@ theorem while_step (w lp : Tok) (c : SCond) (rp lb : Tok) (body : List SStmt) (r
   | ok u =>
   obtain ⟨ct, j0⟩ := u
   simp only
-  cases elabL env (substC s.constants) (i :: B) (i :: C) true body (i + 1) j0 with
+  cases elabL env sn (substC s.constants) (i :: B) (i :: C) true body (i + 1) j0 with
   | error e => rfl
   | ok v =>
-    obtain ⟨a, i1, j1⟩ := v
+    obtain ⟨a, m1, i1, j1⟩ := v
     simp only [outC, ex_bind_ok]
     psimp [run_popBreak_S, run_popContinue_S]
     rfl
@@ -1090,7 +1197,7 @@ theorem whileInf_step (w lb : Tok) (body : List SStmt) (rb : Tok) (rest : List T
     (hx : swfS (.whileInf w lb body rb) = true) (hf : needS (.whileInf w lb body rb) ≤ n + 2) :
     (parseWhileStatement env sn (n + 1)).run (S s (printS (.whileInf w lb body rb) ++ rest) B C i j) =
       outS s (rb :: rest) B C
-        (elabS env (substC s.constants) B C (isRB rest) (.whileInf w lb body rb) i j) := by
+        (elabS env sn (substC s.constants) B C (isRB rest) (.whileInf w lb body rb) i j) := by
   simp only [swfS, Bool.and_eq_true, beq_iff_eq] at hx
   obtain ⟨⟨⟨h1, h2⟩, h3⟩, h4⟩ := hx
   simp only [needS] at hf
@@ -1098,10 +1205,10 @@ theorem whileInf_step (w lb : Tok) (body : List SStmt) (rb : Tok) (rest : List T
   simp only [printS, elabS, List.cons_append, List.append_assoc, List.nil_append]
   psimp [run_newSid_S, run_pushBreak_S, run_pushContinue_S,
     ih.cond0 env sn s (i :: B) (i :: C) (i + 1) j w lb body rb rest h2 h3 h4 (by omega)]
-  cases elabL env (substC s.constants) (i :: B) (i :: C) true body (i + 1) j with
+  cases elabL env sn (substC s.constants) (i :: B) (i :: C) true body (i + 1) j with
   | error e => rfl
   | ok v =>
-    obtain ⟨a, i1, j1⟩ := v
+    obtain ⟨a, m1, i1, j1⟩ := v
     simp only [outC, ex_bind_ok]
     psimp [run_popBreak_S, run_popContinue_S]
     rfl
@@ -1112,7 +1219,7 @@ theorem doWhile_step (d lb : Tok) (body : List SStmt) (rb w lp : Tok) (c : SCond
     (parseDoWhileStatement env sn (n + 1)).run
         (S s (printS (.doWhile d lb body rb w lp c rp) ++ rest) B C i j) =
       outS s (rp :: rest) B C
-        (elabS env (substC s.constants) B C (isRB rest) (.doWhile d lb body rb w lp c rp) i j) := by
+        (elabS env sn (substC s.constants) B C (isRB rest) (.doWhile d lb body rb w lp c rp) i j) := by
   simp only [swfS, Bool.and_eq_true, beq_iff_eq] at hx
   obtain ⟨⟨⟨⟨⟨⟨⟨h1, h2⟩, h3⟩, h4⟩, h5⟩, h6⟩, h7⟩, h8⟩ := hx
   simp only [needS] at hf
@@ -1121,16 +1228,16 @@ theorem doWhile_step (d lb : Tok) (body : List SStmt) (rb w lp : Tok) (c : SCond
   psimp [run_newSid_S, run_pushBreak_S, run_pushContinue_S, bt h2,
     ih.block env sn lb s (i :: B) (i :: C) (i + 1) j body [] {} rb (w :: lp :: (printCond c ++ rp :: rest)) h7 h3
       (by omega)]
-  cases elabL env (substC s.constants) (i :: B) (i :: C) true body (i + 1) j with
+  cases elabL env sn (substC s.constants) (i :: B) (i :: C) true body (i + 1) j with
   | error e => rfl
   | ok v =>
-    obtain ⟨a, i1, j1⟩ := v
+    obtain ⟨a, m1, i1, j1⟩ := v
     simp only [outB, ex_bind_ok, List.nil_append]
     psimp [run_popBreak_S, run_popContinue_S, bt h4, bt h5,
       cond_S env sn s B C i1 j1 c lp rp rest h8 h6 n (by omega)]
     cases elabCond env (substC s.constants) c j1 with
     | error e => rfl
-    | ok u => obtain ⟨ct, j2⟩ := u; rfl
+    | ok u => obtain ⟨ct, j2⟩ := u; simp [outS, add_nil, nil_add]
 
 omit ih in
 theorem printCases_head (r : List SCase) (h : swfCases r = true) (rb : Tok) (rest : List Tok)
@@ -1165,16 +1272,16 @@ theorem tok_dflt (σ : String → String) (d colon : Tok) : Hdr.tok σ (.dflt d 
 omit ih in
 theorem isDefault_dflt (d colon : Tok) : (Hdr.dflt d colon).isDefault = true := rfl
 
-theorem cases_step (brace : Tok) (acc : List SwitchCase) (seen : List String) (hd : Bool)
+theorem cases_step (brace : Tok) (acc : List SwitchCase) (seen : List String) (hd : Bool) (imp : ImpData)
     (cs : List SCase) (rb : Tok) (rest : List Tok) (hcs : swfCases cs = true) (hrb : rb.type = .RBRACE)
     (hf : needCases cs ≤ n + 1) :
-    (parseSwitchCases env sn brace (n + 1) acc seen hd {}).run (S s (printCases cs ++ rb :: rest) B C i j) =
-      outK s (rb :: rest) B C acc (hd || cs.any SCase.isDflt)
-        (elabCases env (substC s.constants) B C cs seen hd i j) := by
+    (parseSwitchCases env sn brace (n + 1) acc seen hd imp).run (S s (printCases cs ++ rb :: rest) B C i j) =
+      outK s (rb :: rest) B C acc (hd || cs.any SCase.isDflt) imp
+        (elabCases env sn (substC s.constants) B C cs seen hd i j) := by
   cases cs with
   | nil =>
-    rw [step_done env sn brace n acc seen hd {} _ (by simp [printCases, S_toks, hrb])]
-    simp [printCases, elabCases, outK]
+    rw [step_done env sn brace n acc seen hd imp _ (by simp [printCases, S_toks, hrb])]
+    simp [printCases, elabCases, outK, add_nil]
   | cons k r =>
     cases k with
     | case cT vs colon body =>
@@ -1185,7 +1292,7 @@ theorem cases_step (brace : Tok) (acc : List SwitchCase) (seen : List String) (h
       obtain ⟨c', tl', hp, hc', hce⟩ := printCases_head r h5 rb rest hrb
       have hwf : (Hdr.case cT vs colon).WF :=
         ⟨h1, fun v hv => (h2 v hv).1, fun v hv => (h2 v (List.mem_of_mem_tail hv)).2, h3⟩
-      have hstep := step_case env sn brace n acc seen hd {} (S s [] B C i j) cT vs colon
+      have hstep := step_case env sn brace n acc seen hd imp (S s [] B C i j) cT vs colon
         (printL body ++ (printCases r ++ rb :: rest)) hwf (by omega)
       have hw : S s (printCases (SCase.case cT vs colon body :: r) ++ rb :: rest) B C i j =
           st (S s [] B C i j) (cT :: (vs ++ colon :: (printL body ++ (printCases r ++ rb :: rest)))) := by
@@ -1203,25 +1310,25 @@ theorem cases_step (brace : Tok) (acc : List SwitchCase) (seen : List String) (h
         simp only [hdup', Bool.false_eq_true, if_false]
         simp only [st_S, hp]
         rw [ih.swblock env sn brace s B C i j body [] {} c' tl' h4 hc' (by omega), hce]
-        cases elabL env (substC s.constants) B C r.isEmpty body i j with
+        cases elabL env sn (substC s.constants) B C r.isEmpty body i j with
         | error e => rfl
         | ok v =>
-          obtain ⟨a, i1, j1⟩ := v
-          simp only [outB, afterBody, List.nil_append, imp_add_empty, ← hp, vals_case, tok_case, isDefault_case,
+          obtain ⟨a, m1, i1, j1⟩ := v
+          simp only [outB, afterBody, List.nil_append, nil_add, ← hp, vals_case, tok_case, isDefault_case,
             Bool.or_false]
-          rw [ih.cases env sn brace s B C i1 j1 _ _ _ r rb rest h5 hrb (by omega)]
-          cases elabCases env (substC s.constants) B C r (caseValue (substC s.constants) vs :: seen) hd i1 j1 with
+          rw [ih.cases env sn brace s B C i1 j1 _ _ _ _ r rb rest h5 hrb (by omega)]
+          cases elabCases env sn (substC s.constants) B C r (caseValue (substC s.constants) vs :: seen) hd i1 j1 with
           | error e => rfl
           | ok w =>
-            obtain ⟨cs', i2, j2⟩ := w
-            simp [outK, SCase.isDflt]
+            obtain ⟨cs', m2, i2, j2⟩ := w
+            simp [outK, SCase.isDflt, add_assoc]
     | dflt dT colon body =>
       simp only [swfCases, swfCase, Bool.and_eq_true, beq_iff_eq] at hcs
       obtain ⟨⟨⟨h1, h3⟩, h4⟩, h5⟩ := hcs
       simp only [needCases] at hf
       obtain ⟨c', tl', hp, hc', hce⟩ := printCases_head r h5 rb rest hrb
       have hwf : (Hdr.dflt dT colon).WF := ⟨h1, h3⟩
-      have hstep := step_dflt env sn brace n acc seen hd {} (S s [] B C i j) dT colon
+      have hstep := step_dflt env sn brace n acc seen hd imp (S s [] B C i j) dT colon
         (printL body ++ (printCases r ++ rb :: rest)) hwf
       have hw : S s (printCases (SCase.dflt dT colon body :: r) ++ rb :: rest) B C i j =
           st (S s [] B C i j) (dT :: colon :: (printL body ++ (printCases r ++ rb :: rest))) := by
@@ -1234,18 +1341,18 @@ theorem cases_step (brace : Tok) (acc : List SwitchCase) (seen : List String) (h
         simp only [Bool.false_eq_true, if_false]
         simp only [st_S, hp]
         rw [ih.swblock env sn brace s B C i j body [] {} c' tl' h4 hc' (by omega), hce]
-        cases elabL env (substC s.constants) B C r.isEmpty body i j with
+        cases elabL env sn (substC s.constants) B C r.isEmpty body i j with
         | error e => rfl
         | ok v =>
-          obtain ⟨a, i1, j1⟩ := v
-          simp only [outB, afterBody, List.nil_append, imp_add_empty, ← hp, vals_dflt, tok_dflt, isDefault_dflt,
+          obtain ⟨a, m1, i1, j1⟩ := v
+          simp only [outB, afterBody, List.nil_append, nil_add, ← hp, vals_dflt, tok_dflt, isDefault_dflt,
             Bool.or_true, Bool.false_or]
-          rw [ih.cases env sn brace s B C i1 j1 _ _ _ r rb rest h5 hrb (by omega)]
-          cases elabCases env (substC s.constants) B C r seen true i1 j1 with
+          rw [ih.cases env sn brace s B C i1 j1 _ _ _ _ r rb rest h5 hrb (by omega)]
+          cases elabCases env sn (substC s.constants) B C r seen true i1 j1 with
           | error e => rfl
           | ok w =>
-            obtain ⟨cs', i2, j2⟩ := w
-            simp [outK, SCase.isDflt]
+            obtain ⟨cs', m2, i2, j2⟩ := w
+            simp [outK, SCase.isDflt, add_assoc]
 
 theorem switch_step (sw lp v lp2 : Tok) (ops : List Tok) (rp2 rp lb : Tok) (cs : List SCase) (rb : Tok)
     (rest : List Tok) (hx : swfS (.switch_ sw lp v lp2 ops rp2 rp lb cs rb) = true)
@@ -1253,7 +1360,7 @@ theorem switch_step (sw lp v lp2 : Tok) (ops : List Tok) (rp2 rp lb : Tok) (cs :
     (parseSwitchStatement env sn (n + 1)).run
         (S s (printS (.switch_ sw lp v lp2 ops rp2 rp lb cs rb) ++ rest) B C i j) =
       outS s (rb :: rest) B C
-        (elabS env (substC s.constants) B C (isRB rest) (.switch_ sw lp v lp2 ops rp2 rp lb cs rb) i j) := by
+        (elabS env sn (substC s.constants) B C (isRB rest) (.switch_ sw lp v lp2 ops rp2 rp lb cs rb) i j) := by
   simp only [swfS, Bool.and_eq_true, beq_iff_eq, List.all_eq_true, operandTok, bne_iff_ne] at hx
   obtain ⟨⟨⟨⟨⟨⟨⟨⟨⟨h1, h2⟩, h3⟩, h4⟩, h5⟩, h6⟩, h7⟩, h8⟩, h9⟩, h10⟩ := hx
   simp only [needS] at hf
@@ -1268,12 +1375,12 @@ theorem switch_step (sw lp v lp2 : Tok) (ops : List Tok) (rp2 rp lb : Tok) (cs :
   rw [hw, hrun]
   show finishSwitch sw i (operandOf (substC s.constants) ops rp2) [] {}
     ((parseSwitchCases env sn lb n [] [] false {}).run (S s (printCases cs ++ rb :: rest) (i :: B) C (i + 1) j)) = _
-  rw [ih.cases env sn lb s (i :: B) C (i + 1) j [] [] false cs rb rest h10 h9 (by omega)]
+  rw [ih.cases env sn lb s (i :: B) C (i + 1) j [] [] false {} cs rb rest h10 h9 (by omega)]
   simp only [elabS]
-  cases elabCases env (substC s.constants) (i :: B) C cs [] false (i + 1) j with
+  cases elabCases env sn (substC s.constants) (i :: B) C cs [] false (i + 1) j with
   | error e => rfl
   | ok w =>
-    obtain ⟨cs', i1, j1⟩ := w
+    obtain ⟨cs', m1, i1, j1⟩ := w
     simp only [outK, finishSwitch, List.nil_append]
     cases cs' with
     | nil => rfl
@@ -1344,7 +1451,7 @@ theorem switchA_step (sw lp name lp2 : Tok) (a0 : List Tok) (more : List (Tok ×
     (parseSwitchStatement env sn (n + 1)).run
         (S s (printS (.switchA sw lp name lp2 a0 more rp2 rp lb cs rb) ++ rest) B C i j) =
       outS s (rb :: rest) B C
-        (elabS env (substC s.constants) B C (isRB rest) (.switchA sw lp name lp2 a0 more rp2 rp lb cs rb)
+        (elabS env sn (substC s.constants) B C (isRB rest) (.switchA sw lp name lp2 a0 more rp2 rp lb cs rb)
           i j) := by
   simp only [swfS, Bool.and_eq_true, beq_iff_eq, decide_eq_true_eq, List.all_eq_true] at hx
   obtain ⟨⟨⟨⟨⟨⟨⟨⟨⟨⟨h1, h2⟩, h3⟩, h4⟩, h5⟩, h6⟩, h7⟩, h8⟩, h9⟩, h10⟩, h11⟩ := hx
@@ -1366,11 +1473,11 @@ theorem switchA_step (sw lp name lp2 : Tok) (a0 : List Tok) (more : List (Tok ×
     | none =>
       simp only [ex_bind_ok]
       psimp [bt h8, bt h9,
-        ih.cases env sn lb s (i :: B) C (i + 1) (j + 1) [] [] false cs rb rest h11 h10 (by omega)]
-      cases elabCases env (substC s.constants) (i :: B) C cs [] false (i + 1) (j + 1) with
+        ih.cases env sn lb s (i :: B) C (i + 1) (j + 1) [] [] false {} cs rb rest h11 h10 (by omega)]
+      cases elabCases env sn (substC s.constants) (i :: B) C cs [] false (i + 1) (j + 1) with
       | error e => rfl
       | ok w =>
-        obtain ⟨cs', i1, j1⟩ := w
+        obtain ⟨cs', m1, i1, j1⟩ := w
         simp only [outK, ex_bind_ok, List.nil_append]
         psimp [run_popBreak_S]
         cases cs' with
@@ -1383,7 +1490,7 @@ theorem switchA_step (sw lp name lp2 : Tok) (a0 : List Tok) (more : List (Tok ×
 theorem dispatch_step (x : SStmt) (rest : List Tok) (hx : swfS x = true) (hfol : Fol rest)
     (hf : needS x ≤ n) :
     (stmtOrPory env sn n (S s (printS x ++ rest) B C i j)).run (S s (printS x ++ rest) B C i j) =
-      outS s (lastS x :: rest) B C (elabS env (substC s.constants) B C (isRB rest) x i j) := by
+      outS s (lastS x :: rest) B C (elabS env sn (substC s.constants) B C (isRB rest) x i j) := by
   obtain ⟨t, tl, hp, ht⟩ := printS_head x hx
   have hh : (S s (printS x ++ rest) B C i j).toks.headD (S s (printS x ++ rest) B C i j).eof = t := by
     simp [S_toks, hp]
@@ -1397,11 +1504,11 @@ theorem dispatch_step (x : SStmt) (rest : List Tok) (hx : swfS x = true) (hfol :
 theorem pstmts_step (b : List SStmt) (acc : List Stmt) (imp : ImpData) (rb : Tok)
     (rest : List Tok) (hb : swfL b = true) (hrb : rb.type = .RBRACE) (hf : needL b ≤ n + 1) :
     (parsePoryswitchStatements env sn true (n + 1) acc imp).run (S s (printL b ++ rb :: rest) B C i j) =
-      outB s (rb :: rest) B C acc imp (elabL env (substC s.constants) B C true b i j) := by
+      outB s (rb :: rest) B C acc imp (elabL env sn (substC s.constants) B C true b i j) := by
   cases b with
   | nil =>
     rw [pstmts_nil env sn n _ true acc imp (by simp [printL, S_toks, hrb])]
-    simp [printL, elabL, outB]
+    simp [printL, elabL, outB, add_nil]
   | cons x r =>
     simp only [swfL, Bool.and_eq_true] at hb
     simp only [needL] at hf
@@ -1414,29 +1521,29 @@ theorem pstmts_step (b : List SStmt) (acc : List Stmt) (imp : ImpData) (rb : Tok
       simp [printL]
     rw [hw, pstmts_cons env sn n _ true acc imp (by simp [S_toks, hp, hne.1]), h1]
     simp only [elabL, bt hrb]
-    cases elabS env (substC s.constants) B C (r.isEmpty && true) x i j with
+    cases elabS env sn (substC s.constants) B C (r.isEmpty && true) x i j with
     | error e => rfl
     | ok v =>
-      obtain ⟨a, i1, j1⟩ := v
-      simp only [outS, S_toks, st_S, List.tail_cons, add_nil, if_true]
-      rw [ih.pstmts env sn s B C i1 j1 r (acc ++ a) imp rb rest hb.2 hrb (by omega)]
-      cases elabL env (substC s.constants) B C true r i1 j1 with
+      obtain ⟨a, m1, i1, j1⟩ := v
+      simp only [outS, S_toks, st_S, List.tail_cons, if_true]
+      rw [ih.pstmts env sn s B C i1 j1 r (acc ++ a) (imp.add m1) rb rest hb.2 hrb (by omega)]
+      cases elabL env sn (substC s.constants) B C true r i1 j1 with
       | error e => rfl
-      | ok w => obtain ⟨b', i2, j2⟩ := w; simp [outB]
+      | ok w => obtain ⟨b', m2, i2, j2⟩ := w; simp [outB, add_assoc]
 
 theorem pstmt1_step (x : SStmt) (rest : List Tok) (hx : swfS x = true) (hfol : Fol rest)
     (hf : needS x + 1 ≤ n + 1) :
     (parsePoryswitchStatements env sn false (n + 1) [] {}).run (S s (printS x ++ rest) B C i j) =
-      outB s rest B C [] {} (elabS env (substC s.constants) B C (isRB rest) x i j) := by
+      outB s rest B C [] {} (elabS env sn (substC s.constants) B C (isRB rest) x i j) := by
   obtain ⟨t, tl, hp, ht⟩ := printS_head x hx
   have hne := startT_ne ht
   rw [pstmts_cons env sn n _ false [] {} (by simp [S_toks, hp, hne.1]),
     dispatch_step ih env sn s B C i j x rest hx hfol (by omega)]
-  cases elabS env (substC s.constants) B C (isRB rest) x i j with
+  cases elabS env sn (substC s.constants) B C (isRB rest) x i j with
   | error e => rfl
   | ok v =>
-    obtain ⟨a, i1, j1⟩ := v
-    simp [outS, outB, S_toks, st_S]
+    obtain ⟨a, m1, i1, j1⟩ := v
+    simp [outS, outB, S_toks, st_S, nil_add]
 
 omit ih in
 theorem printPCases_head (r : List SPCase) (h : swfPCases r = true) (rb : Tok) (rest : List Tok)
@@ -1462,7 +1569,7 @@ theorem pcases_step (startTok : Tok) (acc : List (String × List Stmt × ImpData
     (hf : needPCases cs ≤ n + 1) :
     (parsePoryswitchStatementCases env sn startTok (n + 1) acc).run
         (S s (printPCases cs ++ rb :: rest) B C i j) =
-      outP s (rb :: rest) B C (elabPCases env (substC s.constants) B C cs acc i j) := by
+      outP s (rb :: rest) B C (elabPCases env sn (substC s.constants) B C cs acc i j) := by
   cases cs with
   | nil =>
     rw [pcases_nil env sn n _ startTok acc (by simp [printPCases, S_toks, hrb])]
@@ -1482,11 +1589,11 @@ theorem pcases_step (startTok : Tok) (acc : List (String × List Stmt × ImpData
       simp only [elabPCases]
       have hrbq : isRB (printPCases r ++ rb :: rest) = r.isEmpty := by rw [hp]; exact hce
       rw [hrbq]
-      cases elabS env (substC s.constants) B C r.isEmpty x i j with
+      cases elabS env sn (substC s.constants) B C r.isEmpty x i j with
       | error e => rfl
       | ok v =>
-        obtain ⟨a, i1, j1⟩ := v
-        simp only [outB, List.nil_append]
+        obtain ⟨a, m1, i1, j1⟩ := v
+        simp only [outB, List.nil_append, nil_add]
         exact ih.pcases env sn startTok s B C i1 j1 _ r rb rest h4 hrb (by omega)
     | brace key lb body rb' =>
       simp only [swfPCases, swfPCase, Bool.and_eq_true, beq_iff_eq, Bool.or_eq_true] at hcs
@@ -1498,49 +1605,19 @@ theorem pcases_step (startTok : Tok) (acc : List (String × List Stmt × ImpData
       rw [hw, pcases_brace env sn n startTok acc s B C i j key lb _ h1 h2,
         ih.pstmts env sn s B C i j body [] {} rb' (printPCases r ++ rb :: rest) h5 h3 (by omega)]
       simp only [elabPCases]
-      cases elabL env (substC s.constants) B C true body i j with
+      cases elabL env sn (substC s.constants) B C true body i j with
       | error e => rfl
       | ok v =>
-        obtain ⟨a, i1, j1⟩ := v
-        simp only [outB, List.nil_append, S_toks, S_eof, List.headD_cons, bt h3, if_true, st_S, List.tail_cons]
+        obtain ⟨a, m1, i1, j1⟩ := v
+        simp only [outB, List.nil_append, nil_add, S_toks, S_eof, List.headD_cons, bt h3, if_true, st_S,
+          List.tail_cons]
         exact ih.pcases env sn startTok s B C i1 j1 _ r rb rest h4 hrb (by omega)
-
-omit ih in
-/-- Every entry of the table of poryswitch cases carries no implicit data (in the covered grammar). -/
-theorem elabPCases_imp (σ : String → String) (cs : List SPCase) :
-    ∀ (acc : List (String × List Stmt × ImpData)) (i j : Nat) (table : List (String × List Stmt × ImpData))
-      (i1 j1 : Nat), elabPCases env σ B C cs acc i j = .ok (table, i1, j1) →
-      (∀ e ∈ acc, e.2.2 = ({} : ImpData)) → ∀ e ∈ table, e.2.2 = ({} : ImpData) := by
-  induction cs with
-  | nil =>
-    intro acc i j table i1 j1 h hacc
-    simp only [elabPCases] at h
-    cases h; exact hacc
-  | cons k r ih =>
-    intro acc i j table i1 j1 h hacc
-    cases k with
-    | colon key c x =>
-      simp only [elabPCases] at h
-      split at h
-      · cases h
-      · exact ih _ _ _ _ _ _ h (fun e he => by
-          rcases List.mem_cons.mp he with rfl | he
-          · rfl
-          · exact hacc e he)
-    | brace key lb body rb' =>
-      simp only [elabPCases] at h
-      split at h
-      · cases h
-      · exact ih _ _ _ _ _ _ h (fun e he => by
-          rcases List.mem_cons.mp he with rfl | he
-          · rfl
-          · exact hacc e he)
 
 theorem pory_step (ps lp x rp lb : Tok) (cs : List SPCase) (rb : Tok) (rest : List Tok)
     (hx : swfS (.pory ps lp x rp lb cs rb) = true) (hf : needS (.pory ps lp x rp lb cs rb) ≤ n + 2) :
     (parsePoryswitchStatement env sn (n + 1)).run (S s (printS (.pory ps lp x rp lb cs rb) ++ rest) B C i j) =
       outS s (rb :: rest) B C
-        (elabS env (substC s.constants) B C (isRB rest) (.pory ps lp x rp lb cs rb) i j) := by
+        (elabS env sn (substC s.constants) B C (isRB rest) (.pory ps lp x rp lb cs rb) i j) := by
   simp only [swfS, Bool.and_eq_true, beq_iff_eq] at hx
   obtain ⟨⟨⟨⟨⟨⟨h1, h2⟩, h3⟩, h4⟩, h5⟩, h6⟩, h7⟩ := hx
   simp only [needS] at hf
@@ -1560,20 +1637,13 @@ theorem pory_step (ps lp x rp lb : Tok) (cs : List SPCase) (rb : Tok) (rest : Li
     · simp only [g2]
       simp only [Bool.false_eq_true, if_false, ex_bind_ok]
       rw [ih.pcases env sn _ s B C i j [] cs rb rest h7 h6 (by omega)]
-      cases hel : elabPCases env (substC s.constants) B C cs [] i j with
+      cases hel : elabPCases env sn (substC s.constants) B C cs [] i j with
       | error e => rfl
       | ok v =>
         obtain ⟨table, i1, j1⟩ := v
         simp only [outP, ex_bind_ok]
         cases hsel : selectCase env table (swVal env x.lit) with
-        | some r =>
-          obtain ⟨k, hk⟩ := selectCase_mem hsel
-          have himp := elabPCases_imp env B C (substC s.constants) cs [] i j table i1 j1 hel
-            (fun e he => absurd he List.not_mem_nil) _ hk
-          obtain ⟨r1, r2⟩ := r
-          simp only at himp
-          subst himp
-          rfl
+        | some r => obtain ⟨r1, r2⟩ := r; rfl
         | none =>
           simp only
           cases env.envErrors with
@@ -1607,14 +1677,14 @@ theorem spec : ∀ n : Nat, Spec n
       swblock := by intro _ _ _ _ _ _ _ _ b _ _ _ _ _ _ hf; have := needL_pos b; omega
       cond1 := by intros; omega
       cond0 := by intros; omega
-      elifs := by intro _ _ _ _ _ _ _ _ es _ _ _ _ hf; have := needElifs_pos es; omega
+      elifs := by intro _ _ _ _ _ _ _ _ _ es _ _ _ _ hf; have := needElifs_pos es; omega
       ifs := by intro _ _ _ _ _ _ _ _ _ _ _ _ _ _ _ _ _ _ _ hf; simp only [needS] at hf; omega
       whiles := by intro _ _ _ _ _ _ _ _ _ _ _ _ _ _ _ _ hf; simp only [needS] at hf; omega
       whileInfs := by intro _ _ _ _ _ _ _ _ _ _ _ _ _ hf; simp only [needS] at hf; omega
       doWhiles := by
         intro _ _ _ _ _ _ _ _ _ body _ _ _ _ _ _ _ hf
         simp only [needS] at hf; have := needL_pos body; omega
-      cases := by intro _ _ _ _ _ _ _ _ _ _ _ cs _ _ _ _ hf; have := needCases_pos cs; omega
+      cases := by intro _ _ _ _ _ _ _ _ _ _ _ _ cs _ _ _ _ hf; have := needCases_pos cs; omega
       switch := by intro _ _ _ _ _ _ _ _ _ _ _ _ _ _ _ _ _ _ _ hf; simp only [needS] at hf; omega
       switchA := by
         intro _ _ _ _ _ _ _ _ _ _ _ _ _ _ _ _ cs _ _ _ hf
@@ -1634,7 +1704,7 @@ theorem spec : ∀ n : Nat, Spec n
       cond1 := fun env sn req s B C i j pre lp c rp lb body rb rest =>
         cond1_step ih env sn s B C i j req pre lp c rp lb body rb rest
       cond0 := fun env sn s B C i j pre lb body rb rest => cond0_step ih env sn s B C i j pre lb body rb rest
-      elifs := fun env sn s B C i j acc es pre rest => elifs_step ih env sn s B C i j acc es pre rest
+      elifs := fun env sn s B C i j acc imp es pre rest => elifs_step ih env sn s B C i j acc imp es pre rest
       ifs := fun env sn s B C i j ifTok lp c rp lb body rb elifs els rest =>
         if_step ih env sn s B C i j ifTok lp c rp lb body rb elifs els rest
       whiles := fun env sn s B C i j w lp c rp lb body rb rest =>
@@ -1642,8 +1712,8 @@ theorem spec : ∀ n : Nat, Spec n
       whileInfs := fun env sn s B C i j w lb body rb rest => whileInf_step ih env sn s B C i j w lb body rb rest
       doWhiles := fun env sn s B C i j d lb body rb w lp c rp rest =>
         doWhile_step ih env sn s B C i j d lb body rb w lp c rp rest
-      cases := fun env sn brace s B C i j acc seen hd cs rb rest =>
-        cases_step ih env sn s B C i j brace acc seen hd cs rb rest
+      cases := fun env sn brace s B C i j acc seen hd imp cs rb rest =>
+        cases_step ih env sn s B C i j brace acc seen hd imp cs rb rest
       switch := fun env sn s B C i j sw lp v lp2 ops rp2 rp lb cs rb rest =>
         switch_step ih env sn s B C i j sw lp v lp2 ops rp2 rp lb cs rb rest
       switchA := fun env sn s B C i j sw lp name lp2 a0 more rp2 rp lb cs rb rest =>
@@ -1660,16 +1730,16 @@ theorem spec : ∀ n : Nat, Spec n
 theorem S_self (s : PState) : S s s.toks s.breakStack s.continueStack s.nextSid s.nextCmdId = s := rfl
 
 /-- **Stage 2 + 3 in one statement.** On the printed tokens of a well-formed block `b` followed by `}`,
-`parseBlockStatement` returns exactly what the reference elaboration says: the elaborated statements
-(no implicit data), stopping ON the `}`, only the window and the two counters changed — or the located
+`parseBlockStatement` returns exactly what the reference elaboration says: the elaborated statements and
+their implicit data, stopping ON the `}`, only the window and the two counters changed — or the located
 error of the first violation. -/
 theorem parse_block_elab (env : Env) (sn : String) (startTok : Tok) (b : List SStmt) (rb : Tok)
     (rest : List Tok) (hwf : SWF b) (hrb : rb.type = .RBRACE) (s : PState)
     (htoks : s.toks = printStmts b ++ rb :: rest) (fuel : Nat) (hfuel : needL b ≤ fuel) :
     (parseBlockStatement env sn startTok fuel [] {}).run s =
-      match elabE env (ctxOf s) b with
-      | .ok (stmts, c') =>
-        .ok ((stmts, {}), { s with toks := rb :: rest, nextSid := c'.nextSid, nextCmdId := c'.nextCmdId })
+      match elabE env sn (ctxOf s) b with
+      | .ok (stmts, imp, c') =>
+        .ok ((stmts, imp), { s with toks := rb :: rest, nextSid := c'.nextSid, nextCmdId := c'.nextCmdId })
       | .error e => .error e := by
   have h := (spec fuel).block env sn startTok s s.breakStack s.continueStack s.nextSid s.nextCmdId b [] {} rb
     rest hwf hrb hfuel
@@ -1677,17 +1747,18 @@ theorem parse_block_elab (env : Env) (sn : String) (startTok : Tok) (b : List SS
   rw [h]
   unfold elabE ctxOf
   simp only
-  cases elabL env (substC s.constants) s.breakStack s.continueStack true b s.nextSid s.nextCmdId with
+  cases elabL env sn (substC s.constants) s.breakStack s.continueStack true b s.nextSid s.nextCmdId with
   | error e => rfl
-  | ok v => obtain ⟨a, i1, j1⟩ := v; rfl
+  | ok v => obtain ⟨a, m1, i1, j1⟩ := v; rfl
 
 /-- **Stage 2: parse ∘ print = elaborate.** -/
 theorem parse_block_print (env : Env) (sn : String) (startTok : Tok) (b : List SStmt) (rb : Tok)
     (rest : List Tok) (hwf : SWF b) (hrb : rb.type = .RBRACE) (s : PState)
     (htoks : s.toks = printStmts b ++ rb :: rest) (fuel : Nat) (hfuel : needL b ≤ fuel)
-    (stmts : List Stmt) (c' : Ctx) (helab : elaborate env (ctxOf s) b = some (stmts, c')) :
+    (stmts : List Stmt) (imp : ImpData) (c' : Ctx)
+    (helab : elaborate env sn (ctxOf s) b = some (stmts, imp, c')) :
     (parseBlockStatement env sn startTok fuel [] {}).run s =
-      .ok ((stmts, {}), { s with toks := rb :: rest, nextSid := c'.nextSid, nextCmdId := c'.nextCmdId }) ∧
+      .ok ((stmts, imp), { s with toks := rb :: rest, nextSid := c'.nextSid, nextCmdId := c'.nextCmdId }) ∧
     c'.breakStack = s.breakStack ∧ c'.continueStack = s.continueStack := by
   have he := elaborate_some helab
   refine ⟨?_, (elabE_stacks he).1, (elabE_stacks he).2.1⟩
@@ -1698,7 +1769,7 @@ first documented violation), so does the parser. -/
 theorem parse_block_reject (env : Env) (sn : String) (startTok : Tok) (b : List SStmt) (rb : Tok)
     (rest : List Tok) (hwf : SWF b) (hrb : rb.type = .RBRACE) (s : PState)
     (htoks : s.toks = printStmts b ++ rb :: rest) (fuel : Nat) (hfuel : needL b ≤ fuel)
-    (e : PFail) (helab : elabE env (ctxOf s) b = .error e) :
+    (e : PFail) (helab : elabE env sn (ctxOf s) b = .error e) :
     (parseBlockStatement env sn startTok fuel [] {}).run s = .error e := by
   rw [parse_block_elab env sn startTok b rb rest hwf hrb s htoks fuel hfuel, helab]
 
@@ -1706,8 +1777,8 @@ theorem parse_block_reject (env : Env) (sn : String) (startTok : Tok) (b : List 
 theorem parse_block_reject_none (env : Env) (sn : String) (startTok : Tok) (b : List SStmt) (rb : Tok)
     (rest : List Tok) (hwf : SWF b) (hrb : rb.type = .RBRACE) (s : PState)
     (htoks : s.toks = printStmts b ++ rb :: rest) (fuel : Nat) (hfuel : needL b ≤ fuel)
-    (helab : elaborate env (ctxOf s) b = none) :
-    ∃ e, elabE env (ctxOf s) b = .error e ∧
+    (helab : elaborate env sn (ctxOf s) b = none) :
+    ∃ e, elabE env sn (ctxOf s) b = .error e ∧
       (parseBlockStatement env sn startTok fuel [] {}).run s = .error e := by
   obtain ⟨e, he⟩ := elaborate_none helab
   exact ⟨e, he, parse_block_reject env sn startTok b rb rest hwf hrb s htoks fuel hfuel e he⟩
